@@ -152,6 +152,9 @@ func (descriptor *pmtDescriptor) decode() string {
 	case EBP:
 		return fmt.Sprintf("EBP (%d)", descriptor.tag)
 	case STREAM_IDENTIFIER:
+		if len(descriptor.data) < 1 {
+			return fmt.Sprintf("Stream Identifier (%d)", descriptor.tag)
+		}
 		return fmt.Sprintf("Stream Identifier (%d): %v", descriptor.tag, descriptor.data[0])
 	case EXTENSION:
 		return fmt.Sprintf("TTML Subtitling (language code=%s)", descriptor.DecodeTTMLIso639LanguageCode())
@@ -173,14 +176,14 @@ func (descriptor *pmtDescriptor) IsEBPDescriptor() bool {
 
 // Return the decoded Maximum_bitrate in units of 50 bytes per second
 func (descriptor *pmtDescriptor) DecodeMaximumBitRate() uint32 {
-	if descriptor.IsMaximumBitrateDescriptor() {
+	if descriptor.IsMaximumBitrateDescriptor() && len(descriptor.data) >= 3 {
 		return uint32(descriptor.data[0]&0x1f)<<16 | uint32(descriptor.data[1])<<8 | uint32(descriptor.data[2])
 	}
 	return 0
 }
 
 func (descriptor *pmtDescriptor) DecodeIso639LanguageCode() string {
-	if LANGUAGE == descriptor.tag {
+	if LANGUAGE == descriptor.tag && len(descriptor.data) >= 3 {
 		return string(descriptor.data[0:3])
 	}
 	return ""
